@@ -241,7 +241,7 @@ func (h *hist) nextTx(t *rapid.T) (txSpec, bool) {
 			return tx, true
 		}
 	}
-	if len(w.feeds) > 0 && rapid.IntRange(0, 4).Draw(t, "feedanswer") == 0 {
+	if len(w.feeds) > 0 && rapid.IntRange(0, 2).Draw(t, "feedanswer") == 0 {
 		// answer an active request of a feed's context, so that feeds accumulate a value history
 		type req struct{ id, provider string }
 		var reqs []req
@@ -260,7 +260,7 @@ func (h *hist) nextTx(t *rapid.T) (txSpec, bool) {
 			if pu := userIndex(h.n, r.provider); pu >= 0 {
 				out := fmt.Sprintf(`{"header":{},"body":{"last":"%d.%02d"}}`, rapid.IntRange(0, 5000).Draw(t, "val"), rapid.IntRange(0, 99).Draw(t, "frac"))
 				msgs := h.enc(&servicetypes.MsgRespondService{RequestId: r.id, Provider: r.provider, Result: hResult, Output: out})
-				if rapid.IntRange(0, 3).Draw(t, "discardanswer") == 0 {
+				if rapid.IntRange(0, 5).Draw(t, "discardanswer") == 3 {
 					// the answer (and the feed value it would append) is executed and then discarded with its transaction;
 					// the request stays open and can be answered again
 					msgs = append(msgs, h.enc(&banktypes.MsgSend{FromAddress: r.provider, ToAddress: h.addr(0), Amount: coins("nosuchcoin", 1)})...)
@@ -269,7 +269,7 @@ func (h *hist) nextTx(t *rapid.T) (txSpec, bool) {
 			}
 		}
 	}
-	if len(w.feeds) > 0 && rapid.IntRange(0, 9).Draw(t, "shrinkhist") == 0 {
+	if len(w.feeds) > 0 && rapid.IntRange(0, 29).Draw(t, "shrinkhist") == 7 {
 		// the creator shortens the history of a feed that already holds several values
 		for _, f := range w.feeds {
 			if n := len(k.Oracle.GetFeedValues(ctx, f.Name)); n >= 2 {
@@ -742,6 +742,15 @@ func (h *hist) nextTx(t *rapid.T) (txSpec, bool) {
 		}
 		if len(w.feeds) == 0 || rapid.IntRange(0, 3).Draw(t, "newfeed") == 0 {
 			b := pick(t, "binding", w.bindings)
+			if b.Price > 50 {
+				// a feed over a provider dearer than its fee cap never gets a request: prefer an affordable service
+				for _, c := range w.bindings {
+					if c.Price <= 50 {
+						b = c
+						break
+					}
+				}
+			}
 			var provs []string
 			for _, bb := range w.bindings {
 				if bb.Svc == b.Svc {
@@ -765,7 +774,7 @@ func (h *hist) nextTx(t *rapid.T) (txSpec, bool) {
 		case 2:
 			return txSpec{f.Creator, h.enc(&oracletypes.MsgPauseFeed{FeedName: f.Name, Creator: h.addr(f.Creator)})}, true
 		default:
-			return txSpec{f.Creator, h.enc(&oracletypes.MsgEditFeed{FeedName: f.Name, Description: "[do-not-modify]", LatestHistory: uint64(rapid.IntRange(1, 4).Draw(t, "hist")), Creator: h.addr(f.Creator)})}, true
+			return txSpec{f.Creator, h.enc(&oracletypes.MsgEditFeed{FeedName: f.Name, Description: "[do-not-modify]", LatestHistory: uint64(rapid.SampledFrom([]int{1, 2, 3, 4, 4, 4}).Draw(t, "hist")), Creator: h.addr(f.Creator)})}, true
 		}
 	}
 	return txSpec{}, false
@@ -1007,6 +1016,9 @@ func (h *hist) ctxLifeTx(t *rapid.T) (txSpec, bool) {
 		}
 		pending := k.Service.HasRequestBatchExpiration(ctx, id) // the last batch still has its expiry entry ahead
 		switch {
+		case isFeed && rc.State == servicetypes.PAUSED && !pending && len(k.Oracle.GetFeedValues(ctx, f.Name)) < 2:
+			// a feed that was created (paused) and never started, or stopped before it had a history: get it going
+			restart = append(restart, txSpec{f.Creator, h.enc(&oracletypes.MsgStartFeed{FeedName: f.Name, Creator: h.addr(f.Creator)})})
 		case rc.State == servicetypes.PAUSED && rc.BatchState == servicetypes.BATCHCOMPLETED && pending:
 			if isFeed {
 				restart = append(restart, txSpec{f.Creator, h.enc(&oracletypes.MsgStartFeed{FeedName: f.Name, Creator: h.addr(f.Creator)})})
@@ -1031,13 +1043,17 @@ func (h *hist) ctxLifeTx(t *rapid.T) (txSpec, bool) {
 				}
 			}
 			it.Close()
-			if len(out) > 0 && len(out) <= 2 {
+			if len(out) > 0 && (len(out) <= 2 || isFeed) {
 				answer = append(answer, out[0])
 			}
 		}
 		return false
 	})
-	for _, cands := range [][]txSpec{restart, pause, answer} {
+	order := [][]txSpec{restart, pause, answer}
+	if rapid.Bool().Draw(t, "answerfirst") {
+		order = [][]txSpec{answer, restart, pause}
+	}
+	for _, cands := range order {
 		if len(cands) > 0 && rapid.IntRange(0, 3).Draw(t, "lifestage") != 0 {
 			return pick(t, "lifecand", cands), true
 		}
